@@ -73,6 +73,13 @@ func c04Forms() []c04Form {
 		{"template-vhtml", func(v string) string {
 			return `<div v-for="(i, ` + v + `) in xs">[[I:{{ i }}|<template v-html="` + v + `"></template>|{{ outer }}]]</div>`
 		}, true},
+		// a bound attribute whose NAME is the loop variable (`<option :value="value">`): only <template :x> writes through to the parent scope
+		{"bound-same-name", func(v string) string {
+			return `<li v-for="(i, ` + v + `) in xs" :` + v + `="` + v + `" :i="i">[[I:{{ i }}|{{ ` + v + ` }}|{{ outer }}]]</li>`
+		}, true},
+		{"child-bound-same-name", func(v string) string {
+			return `<ul v-for="(i, ` + v + `) in xs"><li :` + v + `="` + v + `" :i="i"><em>[[I:{{ i }}|{{ ` + v + ` }}|{{ outer }}]]</em></li></ul>`
+		}, true},
 		{"expr-context", func(v string) string {
 			return `<li v-for="(i, ` + v + `) in xs"><em v-if="` + v + ` == ` + v + `">[[I:{{ i }}|{{ ` + v + ` }}|{{ outer }}]]</em></li>`
 		}, true},
